@@ -18,11 +18,14 @@ THEOREMS = ['Vakt.C17.audit_effect_eq_answer', 'Vakt.C17.audit_candidates_eq_mat
 # obligations over what was translated from /repo/vakt/guard.py in this run: check_policies_allow / is_allowed_check / is_allowed
 # together with their audit_log.info(..., extra=...) calls and the decision-log call, as effects on a log value, are the model's
 # isAllowedLogged (lean/Gen/EquivGuardAudit.lean)
-EXTRA_BUILD = ['+Gen.EquivGuardAudit']
-GEN_IMPORTS = ['Gen.EquivGuardAudit']
+EXTRA_BUILD = ['+Gen.EquivGuardAudit', '+Gen.EquivAuditMsg']
+GEN_IMPORTS = ['Gen.EquivGuardAudit', 'Gen.EquivAuditMsg']
 GEN_THEOREMS = ['Vakt.GenEquiv.gen_is_allowed_logged', 'Vakt.GenEquiv.gen_is_allowed_check_audit',
                 'Vakt.GenEquiv.gen_check_policies_allow_audit', 'Vakt.GenEquiv.gen_check_policies_allow_audit_lazy',
-                'Vakt.GenEquiv.translatedGuardAudit_covers']
+                'Vakt.GenEquiv.translatedGuardAudit_covers',
+                # the __str__ methods of the four message classes of vakt/audit.py are the model's renderMsg
+                'Vakt.GenEquiv.gen_str_nop', 'Vakt.GenEquiv.gen_str_uid', 'Vakt.GenEquiv.gen_str_desc', 'Vakt.GenEquiv.gen_str_count',
+                'Vakt.GenEquiv.translatedAuditMsgs_covers']
 FLOOR = {'quick': 300, 'thorough': 5000}
 MSG = {'nop': PoliciesNopMsg, 'uid': PoliciesUidMsg, 'desc': PoliciesDescriptionMsg, 'count': PoliciesCountMsg}
 
@@ -153,12 +156,54 @@ def check_call(out, desc, answer, arecs, grecs, objs, matches, cls, hit=False):
     return bad
 
 
+def _guard_before_logging(ctx, out, rng):
+    """the guard is constructed first, logging is configured afterwards (levels raised to INFO, handlers attached): every
+    decision made from then on has its audit record and its decision-log record, like a guard constructed after"""
+    for _ in range(ctx.budget(12, 300)):
+        case = polcase.gen_store_case(rng)
+        try:
+            objs, inq = polcase.build_case(case)
+        except Exception:
+            continue
+        k = case['k']
+        st = MemoryStorage()
+        for o in objs:
+            st.add(o)
+        la, lg = AUDIT.level, GUARDLOG.level
+        AUDIT.setLevel(pick(rng, [logging.WARNING, logging.CRITICAL, logging.NOTSET]))
+        GUARDLOG.setLevel(pick(rng, [logging.WARNING, logging.CRITICAL]))
+        try:
+            g = Guard(st, polcase.make_checker(k))          # no handler yet, levels above INFO
+            with Listen() as L:
+                try:
+                    answer = g.is_allowed(inq)
+                except Exception:
+                    answer = 'escaped'
+                arecs, grecs = L.take()
+        finally:
+            AUDIT.setLevel(la)
+            GUARDLOG.setLevel(lg)
+        matches = polcase.direct_matches(k, objs, inq)
+        desc = {'checker': k, 'policies': [repr(p) for p in case['policies']], 'inquiry': repr(case['inquiry']),
+                'msg_class': 'uid', 'matches': matches, 'order': 'Guard(...) constructed, then logging configured'}
+        out.evaluations += 1
+        out.count('guard-before-logging')
+        for what, sig in check_call(out, desc, answer, arecs, grecs, objs, matches, 'uid'):
+            f = Failure('oracle', desc, {'answer': answer, 'audit': [getattr(r, 'effect', None) for r in arecs],
+                                         'decision_log': [r.getMessage()[:60] for r in grecs]}, None, what,
+                        'Vakt.C17.exactly_one_audit_when_completed / decision_log_once_and_agrees')
+            f.signature = sig
+            out.failures.append(f)
+            return
+
+
 def run(ctx):
     out = Outcome()
     rng = ctx.rng
     n = ctx.budget(2500, 100000)
     lines, meta = [], []
     rlines, rmeta = [], []
+    _guard_before_logging(ctx, out, rng)
     with Listen() as L:
         for _ in range(n):
             case = polcase.gen_store_case(rng)
